@@ -56,6 +56,20 @@ def judge(s, t, ans, T, prim, consistent, out, witness, api='is_subtype'):
         return 'ok'
     exact = (not prim) and consistent and terms.in_exact_domain(s, T) and terms.in_exact_domain(t, T)
     if exact and ref:
+        # the exactness domain excludes every use of the IMPLICIT top type, also inside the
+        # supertype chain: the negative answer is only wrong if the relation holds without it
+        top, T.top = T.top, None
+        try:
+            ref = terms.refsub3(s, t, T)
+        finally:
+            T.top = top
+        if ref is None:
+            out.skip('oracle-unknown:no-top')
+            return 'unjudged'
+        if not ref:
+            out.skip('negative-holds-only-through-implicit-top')
+            return 'unjudged'
+    if exact and ref:
         out.violation({'rule': 'inexact', 'api': api, 'cause': arg_profile(s, t, T)},
                       '%s(%s, %s) answered False inside the exactness domain but the declarative relation holds' % (
                           api, terms.term_str(s), terms.term_str(t)), witness, shape)
